@@ -299,7 +299,7 @@ macro_rules! c14_pole_placement {
             vassert!(q * n <= 7.666 * p, "C14/pole/<=55%-after-t/10:(1-p)/p<=7.666/N");
             vassert!(c.b0 <= 0.0314, "C14/pole/first-sample-factor:1-b0>=0.9686");
             vcover!(k == 160, "witness: 10 s");
-            vcover!(k == 2, "witness: 1/8 s");
+            vcover!(k <= 16, "witness: a time of at most 1 s");
         }
     };
 }
